@@ -108,14 +108,15 @@ def ref_upper(kind):
     return 1 / (2 * SM[kind][1]) if kind in SM else F(1)
 
 
-def workflow(kind, cards, use_style, audit_type=Audit.AUDIT_TYPE.ONEAUDIT, via_all=False):
+def workflow(kind, cards, use_style, audit_type=Audit.AUDIT_TYPE.ONEAUDIT, via_all=False, add_pool=True):
     """the documented preparation on real objects; returns dict with everything the oracles need"""
     cvrs, mvrs = build_cards(kind, cards)
     con, asn, audit = build_assertion(kind, audit_type, use_style, len(cards))
     with warnings.catch_warnings():
         warnings.simplefilter("ignore")
-        tally_pools = CVR.pool_contests(cvrs)
-        CVR.add_pool_contests(cvrs, tally_pools)
+        if add_pool:  # the documented ONEAudit preparation; without it a pooled batch may hold cards of several styles
+            tally_pools = CVR.pool_contests(cvrs)
+            CVR.add_pool_contests(cvrs, tally_pools)
         asn.assorter.set_tally_pool_means(cvr_list=cvrs, tally_pools=None, use_style=use_style)
         under = [i for i, c in enumerate(cvrs) if (c.has_contest(CID) or not use_style)]
         if not under:
